@@ -27,7 +27,7 @@ def _triangle(a2, b2, c2):
     return abs(a2 - b2) <= c2 <= a2 + b2 and (a2 + b2 + c2) % 2 == 0
 
 
-def synth_spec(rng: random.Random, *, nfs=None, formalism=None, helset=None, maxspin2=4, ntop=None):
+def synth_spec(rng: random.Random, *, nfs=None, formalism=None, helset=None, maxspin2=4, ntop=None, name_by=None):
     """One random synthetic reaction spec (see ampl.make_reaction).  With ntop = 2 the reaction has two
     decay topologies over the same final state; intermediate states are named after their attached
     final-state set, so the same resonance (sub-decay) can occur below different parents."""
@@ -52,9 +52,16 @@ def synth_spec(rng: random.Random, *, nfs=None, formalism=None, helset=None, max
     init = next(iter(top0.incoming_edge_ids))
     finals = sorted(top0.outgoing_edge_ids)
     parts = {}
-    half = rng.random() < 0.4  # fermionic final states
+    if name_by is None:
+        name_by = "size" if (len(tops) > 1 and rng.random() < 0.5) else "set"
+    # name_by = "size": a resonance is named after the NUMBER of final-state particles it decays to, so the same
+    # resonance occurs in different subsystems of different topologies (rho0 in (12) and in (23)); bosons only
+    half = rng.random() < 0.4 and name_by == "set"  # fermionic final states
     spins = {}  # keyed by attached final-state tuple
     for i in finals:
+        if name_by == "size":
+            spins[(i,)] = rng.choice([0, 0, 2])
+            continue
         spins[(i,)] = rng.choice([1, 1, 3] if half and i == finals[-1] else ([1] if half and i == finals[-2] else [0, 0, 2, 2, 4 if maxspin2 >= 4 else 2]))
     allsets = set()
     for t in tops:
@@ -64,7 +71,11 @@ def synth_spec(rng: random.Random, *, nfs=None, formalism=None, helset=None, max
         if len(S) == 1:
             continue
         par = sum(spins[(i,)] for i in S) % 2
-        spins[S] = rng.choice([x for x in range(0, maxspin2 + 2) if x % 2 == par])
+        if name_by == "size" and S != tuple(finals):
+            by_size = spins.setdefault(("size", len(S)), rng.choice([x for x in range(0, maxspin2 + 2) if x % 2 == 0]))
+            spins[S] = by_size
+        else:
+            spins[S] = rng.choice([x for x in range(0, maxspin2 + 2) if x % 2 == par])
     root = tuple(finals)
     massless = {i: (spins[(i,)] > 0 and rng.random() < 0.2) for i in finals}
     parts["A"] = {"spin2": spins[root], "parity": rng.choice([1, -1]), "mass": 3.1}
@@ -74,7 +85,13 @@ def synth_spec(rng: random.Random, *, nfs=None, formalism=None, helset=None, max
     nalt = {S: rng.choice([1, 1, 2]) for S in inter_sets}
 
     def rname(S, a):
+        if name_by == "size":
+            return f"R{len(S)}{'ab'[a]}"
         return f"R{''.join(map(str, S))}{'ab'[a]}"
+
+    if name_by == "size":
+        for S in inter_sets:
+            nalt[S] = nalt[min(x for x in inter_sets if len(x) == len(S))]
 
     for S in inter_sets:
         for a in range(nalt[S]):
@@ -144,7 +161,7 @@ def synth_spec(rng: random.Random, *, nfs=None, formalism=None, helset=None, max
     if len({id(t["topology"]) for t in transitions}) < len(tops):
         return None
     return {"formalism": formalism, "particles": parts, "transitions": transitions,
-            "meta": {"nfs": nfs, "helset": helset, "tree": topo.tree_of(top0), "ntop": len(tops)}}
+            "meta": {"nfs": nfs, "helset": helset, "tree": topo.tree_of(top0), "ntop": len(tops), "name_by": name_by}}
 
 
 def configure(builder, cfg: dict):
